@@ -111,6 +111,11 @@ func (c16) RunBatch(ctx *core.Ctx, batch int) {
 		for _, s := range gen.RepoSeeds {
 			ins = append(ins, s, s+`"`, s+"/", s+"!", s+`\`, "'"+s)
 		}
+		rv := ctx.Rand("random-values")
+		for i := 0; i < 3000; i++ {
+			h := gen.RandString(rv)
+			ins = append(ins, h, "a:"+h, h+" b", "x "+h, `"`+h+`"`, "/"+h+"/", h+h)
+		}
 		for _, in := range ins {
 			in := in
 			ctx.Case(in, func() { c16Check(ctx, "dict", in) })
